@@ -496,7 +496,7 @@ var vPlans = []string{"", "EB", "EBB", "BEB", "EEB", "EBE", "G", "EBG", "GEB", "
 // vCollect: `dawn gc` — a fresh load of the project followed by Project.GC. It must not change what
 // the following builds execute (C14), which the C01/C02 oracles of the later builds then check.
 func vCollect() {
-	proj, err := vLoadProject()
+	proj, err := vLoadForGC()
 	vAssert(err == nil, "C14: the project does not load for a collection")
 	if err != nil {
 		return
@@ -608,6 +608,15 @@ func VHarnessSaveFault() {
 	r = vBuildOf(top, nil)
 	vAssert(r.buildErr == nil, "a build without failing bodies fails")
 	vReach("history-done")
+}
+
+// VHarnessHistoryIndexed: VHarnessHistory with index.json written by every full load and `dawn gc`
+// loading the project from the index, as the command line does; ignore=1 gives the project an ignore
+// list (third_party/**) — shape 6 has a source below the ignored directory.
+func VHarnessHistoryIndexed() {
+	vIndexMode = true
+	vIgnoring = vParam("ignore") == 1
+	VHarnessHistory()
 }
 
 // VHarnessHistoryTwin: reachability twin.
@@ -765,6 +774,12 @@ func VHarnessCrash() {
 		vReach("no-crash-at-this-index")
 	}
 	vFail = map[string]bool{}
+	if vIndexMode {
+		// `dawn gc` after the crash: the index may be missing, truncated (it is written in place) or
+		// older than the records; it must never be required, and the collection must not disturb
+		// the recovery
+		vCollect()
+	}
 	r = vBuildOf(top, nil)
 	vAfterCrash = false
 	vAssert(r.loadErr == nil && r.buildErr == nil, "C03: the build after a crash or failure does not succeed")
@@ -776,6 +791,13 @@ func VHarnessCrash() {
 		}
 	}
 	vReach("recovered")
+}
+
+// VHarnessCrashIndexed: VHarnessCrash with index.json written (in place) by every full load — two more
+// crash points per load — and a collection that prefers the index between the crash and the recovery.
+func VHarnessCrashIndexed() {
+	vIndexMode = true
+	VHarnessCrash()
 }
 
 var vAfterCrash bool
